@@ -40,6 +40,13 @@ def run(ctx):
                  ("R4", "control-flow plumbing of Vm::exec"), ("R5", "repeat bookkeeping tables")]:
         ctx.rule(r, t)
     # nesting up to the repeat-stack limit: a loop is opened exactly while fewer than SIZE_LIMIT loops are open (C05 RB, repeat container)
+    # execution ends when the pc leaves the program: the op accessors of both program forms answer None for every index
+    # at or past the number of ops (C14 R4)
+    if not getattr(ctx, "_src", None):
+        from . import C14
+        from .C19 import _Only
+        ctx.rule("R7", "the op accessors end execution for any pc at or past the last op, for the op list and the mapped bytecode alike (C14 R4)")
+        C14.run(_Only(ctx, "R4", "R7"))
     from .. import bounded as B_
     ctx.rule("R6", "a Repeat is accepted exactly while the repeat stack holds fewer than its limit of slots (writers of Repeat.stack, C05 RB)")
     for (label, adt, field, limit, doc) in B_.CONTAINERS:
